@@ -187,7 +187,7 @@ pub enum Item {
 #[derive(Clone, Copy, Debug, PartialEq, Eq)]
 pub struct Diverged;
 
-#[derive(Clone, Copy, Debug, Default)]
+#[derive(Clone, Debug, Default)]
 pub struct RunStats {
     pub lig_steps: u64,
     pub kern_steps: u64,
@@ -201,6 +201,8 @@ pub struct RunStats {
     pub pair_revisited: bool,
     /// LIG steps applied, by op code (index = 4a+2b+c)
     pub form_steps: [u32; 12],
+    /// the distinct (left,right) pairs a LIG step was applied to, in order of first application
+    pub lig_pairs: Vec<(Left, Ch)>,
 }
 
 #[derive(Clone, Copy, Debug)]
@@ -232,8 +234,6 @@ pub fn run_cursor(
     let mut bchar = bchar;
     // the element under the cursor; None = the left boundary
     let mut cur: Option<El> = if left_boundary { None } else { rest.pop() };
-    let mut visited: Vec<(Left, Ch)> = vec![];
-
     fn emit(out: &mut Vec<Item>, e: Option<El>) {
         if let Some(e) = e {
             out.push(if e.inserted { Item::Lig(e.c) } else { Item::Char(e.c) });
@@ -267,10 +267,10 @@ pub fn run_cursor(
                 if r_is_boundary {
                     stats.right_boundary_steps += 1;
                 }
-                if visited.contains(&(left, r)) {
+                if stats.lig_pairs.contains(&(left, r)) {
                     stats.pair_revisited = true;
                 } else {
-                    visited.push((left, r));
+                    stats.lig_pairs.push((left, r));
                 }
                 let keep_left = code & 2 != 0;
                 let keep_right = code & 1 != 0;
